@@ -495,6 +495,17 @@ func TestProp(t *testing.T) {
 	})
 }
 
+// FuzzRegister is the native coverage-guided target (thorough tier): the same rule generator driven by the fuzzer's bytes.
+func FuzzRegister(f *testing.F) {
+	f.Fuzz(rapid.MakeFuzz(func(t *rapid.T) {
+		c := genCase(t)
+		vs, _ := Check(c)
+		if len(vs) > 0 && !evid.IsKnown(prop, vs[0].Sig) {
+			t.Fatalf("property %s violated: %v\ncase: %+v", prop, vs[0], c)
+		}
+	}))
+}
+
 func TestReplay(t *testing.T) {
 	path := os.Getenv("VERIF_REPLAY")
 	if path == "" {
